@@ -138,6 +138,58 @@ contract(U + "UserData.getas", props=P, params={"self": "ref:UserData", "convert
                  "result == conv_result(convert, ud_value(self, name)))",
          })
 
+# -- pyproject.toml reader: which key each file option is stored under --------------------------------------------------
+oracle("toml_data", ["val"], "val")
+contract("abs:file.enter", trusted=True, pos_params=[], pure=True, doc="open(path, 'rb').__enter__")
+contract("abs:file.exit", trusted=True, pos_params=[], pure=True, doc="file.__exit__")
+contract("abs:configfile_options_iter", trusted=True, pos_params=["config"], pure=True, result="seq:tuple:any",
+         ensures={"triples": "forall(lambda k: implies(0 <= k < len(result), len(as_tuple(result[k], 'any')) == 3))",
+                  "dest-is-text": "forall(lambda k: implies(0 <= k < len(result), has_kind(as_tuple(result[k], 'any')[0], 'str')))",
+                  "action-is-text": "forall(lambda k: implies(0 <= k < len(result), has_kind(as_tuple(result[k], 'any')[1], 'str')))",
+                  "type-is-none-or-a-function":
+                      "forall(lambda k: implies(0 <= k < len(result), is_none(as_tuple(result[k], 'any')[2]) or "
+                      "typeof_is(as_tuple(result[k], 'any')[2], 'function')))"},
+         doc="(dest, action, type) of every OPTIONS entry that the file mentions (option table: bounded)")
+contract("abs:format_outfiles_coupling", trusted=True, pos_params=["config_data", "config_dir"], modifies=["dict(config_data)", "lists"],
+         ensures={"adds-no-key": "forall_val(lambda x: has_key(config_data, x) == old(has_key(config_data, x)))",
+                  "edits-only-paths-outfiles-format": "forall_val(lambda x: implies(x != 'paths' and x != 'outfiles' and x != 'format', "
+                                                      "dict_value(config_data, x) == old(dict_value(config_data, x))))"},
+         doc="call-site view of format_outfiles_coupling (path part proved above; format/outfiles coupling bounded)")
+contract("abs:_values_to_str", trusted=True, pos_params=["data"], fresh_result="dict", doc="JSON round trip turning numbers into text (A-lib)")
+contract("lib:os.path.dirname", trusted=True, pos_params=["p"], pure=True, result="str")
+contract("new:ConfigParamTypeError", trusted=True, pos_params=["message"], fresh_result="ConfigParamTypeError")
+from pyvc.contracts import external_exception
+external_exception("ConfigParamTypeError", "Exception")
+OPT = "as_tuple(_seq[%s], 'any')"
+contract("lib:tomllib.load", trusted=True, pos_params=["f"], pure=True, result="any", doc="tomllib.load(file) (A-lib)")
+contract("lib:json.dumps", trusted=True, pos_params=["x"], pure=True, result="str", doc="json.dumps (A-lib)")
+contract("lib:json.loads.tables", trusted=True, pos_params=["s"], pure=True, result="dict:tool=dict;*=any",
+         ensures={"toml-tables-are-dictionaries":
+                  "implies(has_key(result, 'tool') and has_key(as_ref(dict_value(result, 'tool'), 'dict'), 'behave'), "
+                  "has_kind(dict_value(as_ref(dict_value(result, 'tool'), 'dict'), 'behave'), 'dict'))"},
+         doc="json.loads(json.dumps(toml data)): plain dictionaries; [tool] and [tool.behave] are TOML tables (A-lib; a scalar "
+             "`tool = 3` is outside the contract)")
+contract(C + "read_toml_config", props=P, params={"path": "str"}, result="dict", lookup_raises=True,
+         with_items={"open(path, 'rb')": ("abs:file.enter", "abs:file.exit")},
+         modifies=["lists"],
+         callsites={"json.loads": "lib:json.loads.tables", "json.dumps": "lib:json.dumps", "tomllib.load": "lib:tomllib.load",
+                    "configfile_options_iter": "abs:configfile_options_iter", "format_outfiles_coupling": "abs:format_outfiles_coupling",
+                    "_values_to_str": "abs:_values_to_str", "os.path.dirname": "lib:os.path.dirname",
+                    "ConfigParamTypeError": "new:ConfigParamTypeError"},
+         locals={"dest": "str", "action": "str", "section_name": "str", "data_name": "str"},
+         raises=[Raises("ConfigParamTypeError", when=None, label="append-option-that-is-not-a-list"),
+                 Raises("ValueError", when=None, label="unknown-action"), Raises("KeyError", when=None, label="no-behave-table")],
+         loops=[Loop(invariant={
+                    "file-tags-are-kept-apart-from-command-line-tags": "not has_key(this_config, 'tags')",
+                    "the-behave-table-stays-a-dictionary": "implies(has_key(config_tool, 'behave'), has_kind(dict_value(config_tool, 'behave'), 'dict'))",
+                    "a-private-result": "is_fresh(this_config)"}, modifies=["dict(this_config)"]),
+                Loop(invariant={"file-tags-are-kept-apart-from-command-line-tags": "not has_key(this_config, 'tags')",
+                                "the-behave-table-stays-a-dictionary": "implies(has_key(config_tool, 'behave'), has_kind(dict_value(config_tool, 'behave'), 'dict'))",
+                                "a-private-result": "is_fresh(this_config)"}, modifies=["dict(this_config)"])],
+         ensures={"file-tags-are-stored-as-config_tags-never-as-tags (so that --tags on the command line wins)":
+                  "not has_key(result, 'tags')",
+                  "a-new-dictionary": "is_fresh(result)"})
+
 prop("C20", level="other", bounded=[],
      explanation="proved: -D definitions are parsed as padding-stripped text, bare name = true, name = stripped text before the "
                  "first '=' of the unquoted definition, value = padding stripped first and then its quote pair (unqote removes "
@@ -145,8 +197,11 @@ prop("C20", level="other", bounded=[],
                  "wins over old user data, everything else kept; make_defaults returns a new dictionary (never the shared class "
                  "level defaults) in which overrides win and everything else keeps its default; relative paths / outfiles of a "
                  "configuration file are resolved against that file's directory, in order, whether or not a format option is "
-                 "present. Bounded: the option table itself (every option x {absent, file, command line, both}), configparser / "
-                 "argparse / toml reading, format/outfiles coupling, typed getters",
+                 "present; UserData.getas returns the default only for a missing name, keeps a present value of the wanted type "
+                 "and converts any other present value (also a falsy one), raising ValueError iff that conversion fails; "
+                 "read_toml_config never stores file tags under 'tags' (they go to config_tags, so --tags on the command line "
+                 "wins) and returns a new dictionary. Bounded: the option table itself (every option x {absent, file, command "
+                 "line, both}), configparser / argparse, the values read_toml_config stores, format/outfiles coupling",
      technique="contract-based deductive verification (own VC generator over the real ASTs, z3/cvc5) of the deciding helper "
                "functions; bounded run-time contract stand-in for the option table",
      notes=["string primitives (strip, split('=', 1), slicing, startswith/endswith) are uninterpreted functions of their arguments",
